@@ -1256,3 +1256,106 @@ func VH_C15_cluster2_serve_shutdown() {
 	vAssert(step >= 2, "script-completed")
 	vReach("end")
 }
+
+//verif:check C09,C03,C10,C12 sched=coop maxsteps=3000000 onunwind=violation stubs=rt,timers,valuefile,abslog,snapfs,lockfs,servefs,restart onblock=violation reach=snapshot-taken,crashed,restarted-from-snapshot,new-leader,closed,end desc="two real nodes under the real Raft.Serve through snapshot, compaction and restart: the leader takes a snapshot through the TakeSnapshot task (real onTakeSnapshot / doTakeSnapshot / snapshot sink / onSnapshotTaken), compacts its log, commits one more update, then its process dies; it is started again on the same directory (raft.New + Serve: snapshot label read back, log suffix kept, state machine restored from the snapshot exactly once); the other node times out, is elected with the restarted node's vote and brings it up to date. The snapshot label names the applied index, its term and the committed configuration; the restarted node's log starts at the snapshot and continues with the same entries; after catching up its state machine has applied exactly the updates above the snapshot, once, in order, and both nodes agree on commit index and log" bounds="leader + follower (third voter down); logs of 3 entries + no-op + 2 client updates; snapshot after the first update; round-robin goroutine schedule"
+func VH_C09_cluster2_snapshot_restart() {
+	cfgE := vClusterConfig().encode()
+	cfgE.index, cfgE.term = 1, 1
+	e2 := &entry{index: 2, term: 1, typ: entryUpdate, data: vBytes("payload2", 1)}
+	e3 := &entry{index: 3, term: 2, typ: entryUpdate, data: vBytes("payload3", 1)}
+	L, la := vClusterNode(vDir, 1, []*entry{cfgE, e2, e3}, 3, 1, 2)
+	L.state, L.leader = Leader, 1
+	L.quorumWait = time.Hour
+	F, fa := vClusterNode(vDirF, 2, []*entry{cfgE, e2, e3}, 3, 1, 2)
+	F.quorumWait = time.Hour
+	vDiskInitAt(vDir, ".id", 7, 1)
+	lrL, dialL := vListen()
+	lrF, dialF := vListen()
+	cut := false
+	L.dialFn = func(network, address string, timeout time.Duration) (net.Conn, error) {
+		if address != vAddr(2) || cut {
+			return nil, vIOError{"dial: connection refused"}
+		}
+		return dialF(network, address, timeout)
+	}
+	F.dialFn = func(network, address string, timeout time.Duration) (net.Conn, error) {
+		if address != vAddr(1) || cut {
+			return nil, vIOError{"dial: connection refused"}
+		}
+		return dialL(network, address, timeout)
+	}
+	go func() { _ = L.Serve(lrL) }()
+	u1, u2 := UpdateFSM(vBytes("cmd1", 1)), UpdateFSM(vBytes("cmd2", 1))
+	snapT := TakeSnapshot(0)
+	ffsm := F.fsm.FSM.(*vFSM)
+	var R *Raft
+	var rfsm *vFSM
+	step := 0
+	vSetIdleHook(func() {
+		switch step {
+		case 0:
+			vAssert(L.commitIndex == 4 && F.commitIndex == 4, "W-settled")
+			go func() { L.FSMTasks() <- u1 }()
+		case 1:
+			vAssert(isClosed(u1.Done()) && u1.Err() == nil && L.commitIndex == 5 && F.commitIndex == 5, "W-first-update-committed")
+			go func() { L.Tasks() <- snapT }()
+		case 2:
+			vAssert(isClosed(snapT.Done()) && snapT.Err() == nil && snapT.Result() == uint64(5), "W-snapshot-task-reports-the-applied-index")
+			vReach("snapshot-taken")
+			m, err := L.snaps.meta()
+			vAssert(err == nil && m.index == 5 && m.term == 3 && m.config.Index == 1 && len(m.config.Nodes) == 3, "W-label-names-applied-index-term-and-committed-configuration")
+			vAssert(L.snaps.index == 5 && la.prev <= 5, "W-compaction-bounded-by-the-snapshot")
+			go func() { L.FSMTasks() <- u2 }()
+		case 3:
+			vAssert(isClosed(u2.Done()) && u2.Err() == nil && L.commitIndex == 6 && F.commitIndex == 6, "W-second-update-committed")
+			// the leader's process dies (its connections drop, its lock file goes with the process)
+			cut = true
+			for _, pe := range vPipes {
+				_ = pe.Close()
+			}
+			delete(vLDir, vDir+"/lock")
+			vCrashedLogs[vDir+"/log"] = la
+			vReach("crashed")
+			rfsm = &vFSM{}
+			opt := DefaultOptions()
+			opt.Logger = nil
+			r2, err := New(opt, rfsm, vDir)
+			vAssert(err == nil && r2 != nil, "W-restart-opens")
+			if err != nil {
+				vStop()
+			}
+			R = r2
+			R.quorumWait = time.Hour
+			vAssert(R.snaps.index == 5 && R.snaps.term == 3, "W-snapshot-label-read-back")
+			vAssert(R.lastLogIndex == 6 && vAbs(R.log).prev <= 5, "W-log-suffix-kept-contiguous-with-the-snapshot")
+			lrR, dialR := vListen()
+			dialL = dialR
+			R.dialFn = L.dialFn
+			go func() { _ = R.Serve(lrR) }()
+			cut = false
+		case 4:
+			vReach("restarted-from-snapshot")
+			vAssert(rfsm.restored == 1 && R.fsm.index == 5 && R.commitIndex == 5, "W-state-machine-restored-from-the-snapshot-once")
+			vAssert(len(rfsm.updates) == 0, "W-nothing-above-the-snapshot-applied-before-it-is-committed-again")
+			vAssert(vFire(F.timer), "W-follower-election-timer-armed")
+		case 5:
+			vAssert(F.state == Leader && F.term == 4, "W-other-node-elected-with-the-restarted-nodes-vote")
+			vReach("new-leader")
+			vAssert(R.state == Follower && R.leader == 2 && R.commitIndex == F.commitIndex && R.lastLogIndex == F.lastLogIndex, "W-restarted-node-caught-up")
+			ra := vAbs(R.log)
+			for i := ra.prev + 1; i <= R.lastLogIndex; i++ {
+				vAssert(bytes.Equal(ra.ents[i-ra.base-1], fa.ents[i-1]), "W-restarted-log-equals-the-other-log-above-the-snapshot")
+			}
+			vAssert(rfsm.restored == 1 && len(rfsm.updates) == 1 && bytes.Equal(rfsm.updates[0], ffsm.updates[len(ffsm.updates)-1]), "W-updates-above-the-snapshot-applied-once-after-restore")
+			go func() { _ = R.Shutdown(context.Background()) }()
+			go func() { _ = F.Shutdown(context.Background()) }()
+			go func() { _ = L.Shutdown(context.Background()) }()
+		}
+		step++
+	})
+	errF := F.Serve(lrF)
+	vReach("closed")
+	vAssert(errF == ErrServerClosed, "W-serve-returns")
+	vAssert(step >= 6, "script-completed")
+	vReach("end")
+}
